@@ -165,12 +165,18 @@ Fixpoint scan (f : value) (l : list (value * value)) : res (list (value * value)
 
 Definition iter_documents (c : coll) (f : value) : res (coll * list (value * value)) :=
   let! c1 := expire c in
-  let! _ := match docs c1 with
-            | [] => filter_applies f (VDoc [])
-            | _ => Ok true
-            end in
-  let! m := scan f (docs c1) in
-  Ok (c1, m).
+  match (let! _ := match docs c1 with
+                   | [] => filter_applies f (VDoc [])
+                   | _ => Ok true
+                   end in
+         scan f (docs c1)) with
+  | Ok m => Ok (c1, m)
+  | Err e =>
+      (* the filter raised AFTER the expiry pass removed documents: the library keeps the
+         purge although the operation fails; the callers of this function return the state
+         they were given on failure, so that case is left outside the model *)
+      if Nat.eqb (List.length (docs c1)) (List.length (docs c)) then Err e else Err EUnmodelled
+  end.
 
 (* ---------------------------------------------------------------- unique indexes *)
 Definition index_query (i : index) (new : value) : res value :=
